@@ -316,6 +316,9 @@ static void run_shift_with(const Desc& d, Ctx& cx, const MA& Aarg, const MB& Bar
                                       typename std::conditional<Mode == GEigsMode::Buckling, SymGEigsBucklingOp<Op, BOp>, SymGEigsCayleyOp<Op, BOp> >::type>::type ModeOp;
     typedef HermEigsBase<ModeOp, BOp> Base;
     InA ina(Aarg, Barg);
+    // presig: the operator object has been used before with ANOTHER shift (an earlier solver on the same object)
+    if (d.has("presig"))
+        ina.set_shift((T) d.f("presig"));
     InB inb(BBarg);
     Op op(ina, &st);
     BOp bop(inb, &stB);
